@@ -6,3 +6,9 @@ import MtailVerif.Props.C19
 #print axioms MtailVerif.C19.streams_skeletons
 #print axioms MtailVerif.C19.line_skeletons
 #print axioms MtailVerif.C19.dispatch_skeletons
+#print axioms MtailVerif.C19.f_vm_vm_skeletons
+#print axioms MtailVerif.C19.f_runtime_runtime_skeletons
+#print axioms MtailVerif.C19.f_mtail_mtail_skeletons
+#print axioms MtailVerif.C19.f_logstream_filestream_skeletons
+#print axioms MtailVerif.C19.f_tailer_tail_skeletons
+#print axioms MtailVerif.C19.f_logstream_logstream_skeletons
